@@ -356,7 +356,19 @@ def run_sub(ctx, mod, sub, findings):
     if sub.prepare:
         sub.prepare(ctx)
     if sub.fn is not None:
-        fs = sub.fn(ctx, total) or []
+        # enumerations manage their own failures; whatever still escapes (a violation raised by set-up code, an exception with a
+        # frame in the code under test) is a finding, not a harness error
+        try:
+            fs = sub.fn(ctx, total) or []
+        except Violation as v:
+            fs = [Failure(sub.name, {"note": "raised outside an enumerated case"}, v.sig, v.msg)]
+        except HarnessError:
+            raise
+        except Exception as e:  # noqa
+            sig = repo_frame_sig(e)
+            if sig is None:
+                raise HarnessError("%s raised %r\n%s" % (sub.name, e, traceback.format_exc()))
+            fs = [Failure(sub.name, {"note": "raised outside an enumerated case"}, "crash:" + sig, "%r" % (e,))]
         return total, fs
 
     n = sub.examples[ctx.tier]
